@@ -95,6 +95,19 @@ def structural(fmt, text):
         if t in DELIMITERS[fmt]:
             out.append(("delimiter-lost", i, join(toks[:i] + toks[i + 1:])))
             out.append(("delimiter-doubled", i, join(toks[:i + 1] + toks[i:])))
+    if fmt == "verilog":
+        # an instantiation retargeted to ANOTHER declared module: the hierarchy changes shape (possibly into a cycle that does
+        # not even contain the module being read) while every token stays well-formed
+        mods = []
+        for i in range(len(toks) - 1):
+            if toks[i] == "module" and toks[i + 1] not in mods:
+                mods.append(toks[i + 1])
+        for i, t in enumerate(toks):
+            if i > 0 and t in mods and toks[i - 1] != "module":
+                k = mods.index(t)
+                for m in (mods[(k + 1) % len(mods)], mods[(k - 1) % len(mods)], mods[-1], mods[0]):
+                    if m != t:
+                        out.append(("instantiation-retargeted", i, join(toks[:i] + [m] + toks[i + 1:])))
     return out
 
 
